@@ -1604,6 +1604,60 @@ func buildStubs() map[string]stubFn {
 	}
 	m["(*strings.Builder).Grow"] = stubNoop
 
+	// ---- go-redis client / olric server.Client: no sockets; Process is routed to the harness' vpProcess
+	const rp9 = "github.com/redis/go-redis/v9"
+	m[olricPath+"/internal/server.NewClient"] = func(ex *Exec, c *frame, fn *ssa.Function, a []Value) Value {
+		p := new(Value)
+		*p = ex.zero(ex.eng.namedType(olricPath+"/internal/server", "Client"))
+		return p
+	}
+	m["(*"+olricPath+"/internal/server.Client).Get"] = func(ex *Exec, c *frame, fn *ssa.Function, a []Value) Value {
+		addr := ex.mustStr(a[1], "server.Client.Get addr")
+		key := fmt.Sprintf("redisClient:%p:%s", a[0], addr)
+		if p, ok := ex.extra[key]; ok {
+			return p.(*Value)
+		}
+		p := new(Value)
+		*p = ex.zero(ex.eng.namedType(rp9, "Client"))
+		ex.extra[key] = p
+		ex.extra[fmt.Sprintf("redisAddr:%p", p)] = addr
+		return p
+	}
+	m["(*"+rp9+".hooksMixin).AddHook"] = stubNoop
+	m["(*"+rp9+".Client).AddHook"] = stubNoop
+	m["(*"+rp9+".Client).Process"] = func(ex *Exec, c *frame, fn *ssa.Function, a []Value) Value {
+		p, _ := a[0].(*Value)
+		if p == nil {
+			ex.throw("nil redis client")
+		}
+		addr, ok := ex.extra[fmt.Sprintf("redisAddr:%p", p)].(string)
+		if !ok {
+			panic(engineErr("redis.Client.Process on a client not obtained from server.Client.Get"))
+		}
+		vp := ex.entryPkg.Func("vpProcess")
+		if vp == nil {
+			panic(engineErr("harness package has no vpProcess"))
+		}
+		ex.effect()
+		err := ex.callSSA(c, vp, []Value{ex.mkStr(addr), a[1], a[2]}, nil)
+		// go-redis stores the error in the command as well
+		cmd := a[2].(IfaceV)
+		if setErr := ex.eng.lookupMethod(cmd.t, nil, "SetErr"); setErr != nil {
+			ex.callSSA(c, setErr, []Value{cmd.v, err}, nil)
+		}
+		return err
+	}
+	m[rp9+"/internal/util.StringToBytes"] = m[olricPath+"/internal/util.StringToBytes"]
+	m[rp9+"/internal/util.BytesToString"] = m[olricPath+"/internal/util.BytesToString"]
+	m["strings.SplitN"] = func(ex *Exec, c *frame, fn *ssa.Function, a []Value) Value {
+		parts := strings.SplitN(ex.mustStr(a[0], "strings.SplitN"), ex.mustStr(a[1], "strings.SplitN"), int(int64(ex.concU64(a[2], "SplitN n"))))
+		d := make([]Value, len(parts))
+		for i, p := range parts {
+			d[i] = ex.mkStr(p)
+		}
+		return ex.mkDenseSlice(d)
+	}
+
 	// ---- regexp: abstract predicate (one arbitrary Bool per distinct concrete key per expression)
 	m["regexp.Compile"] = func(ex *Exec, c *frame, fn *ssa.Function, a []Value) Value {
 		expr := a[0].(*StrV)
